@@ -280,10 +280,12 @@ class Engine:
             s.add(e)
         t = time.time()
         r = s.check()
-        self.tq += time.time() - t
+        dt = time.time() - t
+        self.tq += dt
         self.nq += 1
         r = str(r)
-        if r == 'unsat' and timeout >= 20000 and XCHECK['every']:
+        # cross-check only what z3 decided quickly: exporting and re-deciding the big QF_NRA formulas costs minutes of the job budget
+        if r == 'unsat' and timeout >= 20000 and XCHECK['every'] and dt < 3.0:
             XCHECK['seen'] += 1
             # at most 8 cross-checks per job: each costs up to 20 s of the job's budget (heavy QF_NRA queries are `unknown` in cvc5 anyway)
             if XCHECK['seen'] % XCHECK['every'] == 0 and XCHECK['checked'] < 8:
